@@ -27,7 +27,7 @@
    "fix: Do hands the sending goroutine a copy of the column info ..."; before the first one the table held
    plain writes of the metrics by sender and receiver and [access_table_ok] was false (as_found_rejected). *)
 From Coq Require Import String List NArith Bool.
-From CH Require Import gen.Access model.Races proofs.RacesProofs.
+From CH Require Import gen.Access gen.Globals model.Races proofs.RacesProofs.
 Import ListNotations.
 
 (* the discipline is sound: for EVERY table that passes the check, EVERY system of threads built from it and
@@ -77,6 +77,15 @@ Theorem as_found_races :
   /\ ~ race_free racy_threads racy_trace.
 Proof. exact RacesProofs.racy_witness. Qed.
 Print Assumptions as_found_races.
+
+(* no shared package state: the table of statements in function bodies that write a package-level variable of the
+   library (root package, proto, compress, chpool, otelch; init functions excluded), regenerated from the Go source on
+   every run (translator/globals.go -> gen/Globals.v), is empty.  Such a variable would be memory that two clients on
+   two goroutines - two holders of one pool - reach with no happens-before edge between them, outside every role of the
+   access table. *)
+Theorem no_shared_package_state : Globals.global_writes = [].
+Proof. reflexivity. Qed.
+Print Assumptions no_shared_package_state.
 
 (* non-vacuity: the hypotheses of discipline_sound are satisfiable - a table with a sender and a receiver
    writing one location under one mutex passes the check, has a well-formed two-thread system and an
